@@ -58,3 +58,7 @@ def comparable(obs):
 
 def signature(case, violation):
     return violation.split(" | ")[0]
+
+
+def focus(changed):
+    G.set_focus(changed)
